@@ -652,6 +652,7 @@ func Specs(thorough bool) []Spec {
 		{Name: "v4/S1d-retransmission-identical-datagram-twice", Proto: 4, Blocks: 2, Dgrams: [][]byte{Discover4(a, 0x1601, []byte{6}), Discover4(a, 0x1601, []byte{6})}},
 		{Name: "v6/S1d-retransmission-identical-datagram-twice", Proto: 6, Blocks: 2, Dgrams: [][]byte{Solicit6(a, x(1), true, false, ""), Solicit6(a, x(1), true, false, "")}},
 		{Name: "v6/S5c-two-relayed-solicits-through-different-relay-agents", Proto: 6, Blocks: 4, Dgrams: [][]byte{Relayed6(Solicit6(a, x(1), true, true, ""), "2001:db8:a::1", "fe80::a", "relay-a/port-1"), Relayed6(Solicit6(b, x(2), true, false, ""), "2001:db8:b::1", "fe80::b", "relay-b/port-22")}},
+		{Name: "v6/S1e-relayed-two-IA_PDs+direct-solicit", Proto: 6, Blocks: 8, Dgrams: [][]byte{Relayed6(Solicit6x(a, x(1), "2001:db8:0:10::/64", "2001:db8:0:11::/64"), "2001:db8:a::1", "fe80::a", "relay-a"), Solicit6(b, x(2), true, false, "")}},
 		{Name: "v6/S1-same-client-two-solicits", Proto: 6, Blocks: 2, Dgrams: [][]byte{Solicit6(a, x(1), true, false, ""), Solicit6(a, x(2), true, false, "")}},
 		{Name: "v6/S1b-same-client-two-IA_PDs-each", Proto: 6, Blocks: 8, Dgrams: [][]byte{Solicit6x(a, x(1), "2001:db8:0:15::/64", "2001:db8:0:16::/64"), Solicit6x(a, x(2), "2001:db8:0:11::/64", "")}},
 		{Name: "v6/S1c-same-client-two-hintless-IA_PDs+new-hint", Proto: 6, Blocks: 8, Dgrams: [][]byte{Solicit6x(a, x(1), "", ""), Solicit6(a, x(2), true, false, "2001:db8:0:13::/64")}},
